@@ -75,6 +75,24 @@ def analyse_one(prog, module, clsname, rep):
             rep.check(consumed, "R-C16-c", w, "dispatch pool.%s" % m, "non-blocking API whose result is exhausted before reduce",
                       "pool.%s returns before the tasks have run: reduce can read regions that are still being filled" % m,
                       witness={"schedule": "worker still inside fill_one_cube while the caller runs func.reduce"})
+        # every element of the iterable is dispatched: a chunk size (3rd argument / chunksize=) must be at least 1
+        cs = dict(ev["kwargs"]).get("chunksize", ev["args"][2] if len(ev["args"]) > 2 else None)
+        if cs is not None and not (cs == tm.NONE):
+            okc = None
+            if tm.is_const(cs) and isinstance(cs.args[1], int):
+                okc = cs.args[1] >= 1
+            elif cs.op == "call" and tm.callee_name(cs) == "builtins.max" and any(tm.is_const(a) and isinstance(a.args[1], int) and a.args[1] >= 1 for a in cs.args[1]):
+                okc = True
+            elif cs.op == "binop" and cs.args[0] in ("//", "/") and not tm.contains(cs, lambda x: x.op == "call" and tm.callee_name(x) == "builtins.max"):
+                okc = False
+            if okc is True:
+                rep.proved("R-C16-c", w, "dispatch chunk size is at least 1", tm.show(cs)[:60])
+            elif okc is False:
+                rep.violated("R-C16-c", w, "dispatch chunk size is at least 1",
+                             "chunksize = %s can be 0 (more workers than sub-cubes): Pool.map then dispatches NO task and returns at once, reduce runs on the untouched initial regions" % tm.show(cs)[:60],
+                             witness={"schedule": "pool size 4 (the default) with 3 sub-cubes: chunksize 0, nothing is filled, no exception"})
+            else:
+                rep.undecided("R-C16-c", w, "dispatch chunk size is at least 1", "cannot bound %s from below" % tm.show(cs)[:60])
         # pool created per call
         pool = ev["recv"]
         fresh_pool = all(a.op == "call" for a in tm.alts(pool)) and not tm.contains(pool, lambda x: x.op == "attr" and x.args[0] == tm.param("self") and x.args[1] in ("pool", "_pool"))
